@@ -67,7 +67,38 @@ let show_rx = function
   | Crash _ -> "CRASH"
   | OutOfFuel -> "OUTOFFUEL"
 
+(* bd: cfg = wf wf we rf mb(4); script = records op pre(2) len(2) payload *)
+let rxs_case cfg script stream cuts =
+  let c = Array.of_list (ints_of_hex cfg) in
+  let wf = c.(0) * 256 + c.(1) and rf = c.(3) in
+  let we = List.nth [EPIPE; ENOSPC; EFBIG; EMSGSIZE; E2BIG; ENOMEM; EIO] c.(2) in
+  let mb = ((c.(4) * 256 + c.(5)) * 256 + c.(6)) * 256 + c.(7) in
+  let config = { c_wfail = (if wf = 0xffff then None else Some (nat_of_int wf, we));
+                 c_maxbytes = nat_of_int mb; c_rs = rX_KIB; c_fix = rX_CR_AFTER_LOOP } in
+  let rec take n l = if n = 0 then ([], l) else match l with x :: r -> let (a, b) = take (n - 1) r in (x :: a, b) | [] -> failwith "short" in
+  let rec ops = function
+    | [] -> []
+    | op :: p1 :: p2 :: l1 :: l2 :: r ->
+        let (pl, rest) = take (l1 * 256 + l2) r in
+        let pre = nat_of_int (p1 * 256 + p2) in
+        (match op with
+         | 1 -> let up = List.map (fun x -> if x >= 97 && x <= 122 then x - 32 else x) pl in
+                (match up with 66 :: 68 :: 65 :: 84 :: _ -> () | _ -> failwith "notbdat");
+                OpLine (pre, List.map n_of_int pl)
+         | 2 -> OpRset pre
+         | 3 -> OpBegin (pre, (match pl with x :: _ -> x land 1 = 1 | [] -> false))
+         | _ -> failwith "op") :: ops rest
+    | _ -> failwith "short" in
+  if c.(2) > 6 then failwith "we";
+  (config, ops (ints_of_hex script), bytes_of_hex stream, List.map nat_of_int (ints_of_hex cuts),
+   (if rf = 0xff then None else Some (nat_of_int rf)))
+
 let model fs = match fs with
+  | "bd" :: cfg :: script :: stream :: rest when String.length cfg = 16 ->
+      (try
+        let (config, ops, st, cuts, rf) = rxs_case cfg script stream (match rest with c :: _ -> c | [] -> "-") in
+        show_rx (rx_script config ops st cuts rf)
+      with Failure _ | Invalid_argument _ -> "BADCASE")
   | "aa" :: cs :: msg :: rest -> show_tx (send_bdat (nat_of_int (be_int cs)) (bytes_of_hex msg) (nok_of rest))
   | "bb" :: cfg :: cmds :: stream :: rest when String.length cfg = 16 && List.length (ints_of_hex cmds) mod 5 = 0 ->
       let (config, cm, st, cuts, rf) = rx_case cfg cmds stream (match rest with c :: _ -> c | [] -> "-") in
@@ -99,6 +130,18 @@ let spec fs obs = match fs, obs with
        | Some l -> if spec_ok_C19_rx config (rx_qf cfg) cm st rf l then "ok" else "bad"
        | None -> "bad")
   | "bb" :: _ :: _ :: _ :: _, _ -> "bad"
+  | "bd" :: cfg :: script :: stream :: rest, "OK" :: obs when String.length cfg = 16 ->
+      (try
+        let (config, ops, st, _, rf) = rxs_case cfg script stream "-" in
+        let rec evs acc = function
+          | ("END" | "DIED") :: _ -> Some (List.rev acc)
+          | t :: r -> (match parse_ev t with Some e -> evs (e :: acc) r | None -> None)
+          | [] -> None in
+        (match evs [] obs with
+         | Some l -> if spec_ok_C19_rxs config ops st rf l then "ok" else "bad"
+         | None -> "bad")
+      with Failure _ | Invalid_argument _ -> "BADCASE")
+  | "bd" :: _ :: _ :: _ :: _, _ -> "bad"
   | _ -> "BADCASE"
 
 let () =
